@@ -502,6 +502,157 @@ static int run_cmd(struct ctx *c, char **t, int nt) {
             T, ARG(2), lo, hi, step, count, bad, firstbad, ename(badrc));
     free(dir); return 0; }
 
+  /* ----- envelope <path> <delim> <comment> <optmode 0|1|2> <dir> : C04 — read an arbitrary file; on success exercise
+         every listing, every typed / defaulted / extended getter on every listed key, merge with two fixed partners in both
+         roles, write + re-read.  One summary event; memory errors are ASan's business. ----- */
+  if (!strcmp(op, "envelope")) {
+    char *p = tokstr(ARG(1), NULL), *d = tokstr(ARG(2), NULL), *cm = tokstr(ARG(3), NULL); int mode = atoi(ARG(4)); char *dir = tokstr(ARG(5), NULL);
+    econf_file *kf = NULL, *A = NULL, *B = NULL; int rcs_ok = 1; size_t nkeys = 0, ncalls = 0; econf_err rr = ECONF_SUCCESS, wr = ECONF_SUCCESS;
+#define INENUM(x) do { int _e = (int)(x); ncalls++; if (_e < 0 || _e >= NERR) rcs_ok = 0; } while (0)
+    if (mode == 0) e = econf_readFile(&kf, p, d, cm);
+    else { char *opt; char *root = strdup(p); char *sl = strrchr(root, '/'); if (sl) *sl = 0; sl = strrchr(root, '/'); if (sl) *sl = 0;  /* <root>/etc/<name>.conf */
+      if (asprintf(&opt, "%s;ROOT_PREFIX=%s", mode == 1 ? "JOIN_SAME_ENTRIES=1" : "PYTHON_STYLE=1", root) < 0) opt = NULL;
+      e = econf_newKeyFile_with_options(&kf, opt); free(opt); free(root);
+      if (!e) { char *base = strdup(strrchr(p, '/') + 1); char *dot = strrchr(base, '.'); if (dot) *dot = 0;
+        e = econf_readConfig(&kf, NULL, NULL, base, dot ? dot + 1 : NULL, d, cm); free(base); if (e) { econf_freeFile(kf); kf = NULL; } } }
+    INENUM(e);
+    if (!e && kf) {
+      econf_newKeyFile(&A, '=', '#'); econf_setStringValue(A, NULL, "a", "1"); econf_setStringValue(A, "S", "k", "v"); econf_setStringValue(A, "a", "a", "x");
+      econf_newKeyFile_with_options(&B, "");
+      size_t ng = 0; char **groups = NULL; econf_err ge = econf_getGroups(kf, &ng, &groups); INENUM(ge); if (ge) { groups = NULL; ng = 0; }
+      for (size_t gi = 0; gi <= ng; gi++) {
+        const char *g = gi ? groups[gi - 1] : NULL; size_t nk = 0; char **keys = NULL;
+        econf_err ke = econf_getKeys(kf, g, &nk, &keys); INENUM(ke); if (ke) continue;
+        for (size_t ki = 0; ki < nk; ki++) { const char *k = keys[ki]; nkeys++;
+          int32_t i32; int64_t i64; uint32_t u32; uint64_t u64; float f; double db; char *str = NULL; bool b; econf_ext_value *x = NULL;
+          INENUM(econf_getIntValue(kf, g, k, &i32)); INENUM(econf_getInt64Value(kf, g, k, &i64)); INENUM(econf_getUIntValue(kf, g, k, &u32));
+          INENUM(econf_getUInt64Value(kf, g, k, &u64)); INENUM(econf_getFloatValue(kf, g, k, &f)); INENUM(econf_getDoubleValue(kf, g, k, &db));
+          econf_err se = econf_getStringValue(kf, g, k, &str); INENUM(se); if (!se) free(str);
+          INENUM(econf_getBoolValue(kf, g, k, &b));
+          INENUM(econf_getIntValueDef(kf, g, k, &i32, 1)); INENUM(econf_getInt64ValueDef(kf, g, k, &i64, 1)); INENUM(econf_getUIntValueDef(kf, g, k, &u32, 1));
+          INENUM(econf_getUInt64ValueDef(kf, g, k, &u64, 1)); INENUM(econf_getFloatValueDef(kf, g, k, &f, 1)); INENUM(econf_getDoubleValueDef(kf, g, k, &db, 1));
+          str = NULL; se = econf_getStringValueDef(kf, g, k, &str, "d"); INENUM(se); if (!se || se == ECONF_NOKEY) free(str);
+          INENUM(econf_getBoolValueDef(kf, g, k, &b, true));
+          econf_err xe = econf_getExtValue(kf, g, k, &x); INENUM(xe); if (!xe) econf_freeExtValue(x);
+        }
+        econf_freeArray(keys);
+      }
+      if (!ge) econf_freeArray(groups);
+      char *pp = econf_getPath(kf); free(pp);
+      econf_file *m = NULL; econf_file *pairs[4][2] = {{kf, A}, {A, kf}, {kf, B}, {B, kf}};
+      for (int i = 0; i < 4; i++) { m = NULL; econf_err me = econf_mergeFiles(&m, pairs[i][0], pairs[i][1]); INENUM(me);
+        if (!me && m) { size_t n2 = 0; char **g2 = NULL; if (!econf_getGroups(m, &n2, &g2)) econf_freeArray(g2); char **k2 = NULL; if (!econf_getKeys(m, NULL, &n2, &k2)) econf_freeArray(k2); econf_freeFile(m); } }
+      mkdirs(dir);
+      wr = econf_writeFile(kf, dir, "env.out"); INENUM(wr);
+      if (!wr) { char *op2; econf_file *k2 = NULL; if (asprintf(&op2, "%s/env.out", dir) < 0) op2 = NULL;
+        char dd[2] = { econf_delimiter_tag(kf) ? econf_delimiter_tag(kf) : '=', 0 };
+        rr = econf_readFile(&k2, op2, dd, cm); INENUM(rr); if (!rr) { static FILE *nul = NULL; if (!nul) nul = fopen("/dev/null", "w"); dump_obj(nul, k2, 1); econf_freeFile(k2); } free(op2); }
+      econf_freeFile(A); econf_freeFile(B);
+    }
+    fprintf(o, "{\"op\":\"envelope\",\"rc\":\"%s\",\"obj\":%s,\"nkeys\":%zu,\"ncalls\":%zu,\"rcs_ok\":%s,\"write_rc\":\"%s\",\"reread_rc\":\"%s\"}\n",
+            ename(e), kf ? "true" : "false", nkeys, ncalls, rcs_ok ? "true" : "false", ename(wr), ename(rr));
+    if (kf) econf_freeFile(kf);
+    free(p); free(d); free(cm); free(dir); return 0; }
+
+  /* ----- longprobe <kind> <len> <dir> : C14 — one field of the given length with distinct head and tail markers through
+         every API that copies it; one event per (kind, api) ----- */
+  if (!strcmp(op, "longprobe")) {
+    const char *kind = ARG(1); size_t len = (size_t)strtoull(ARG(2), NULL, 10); char *dir = tokstr(ARG(3), NULL);
+    mkdirs(dir);
+    char *field = malloc(len + 1); memset(field, 'm', len); field[len] = 0;
+    if (len >= 1) field[0] = 'H'; if (len >= 2) field[len - 1] = 'T';
+    char *path; if (asprintf(&path, "%s/long.conf", dir) < 0) path = NULL;
+#define LEV(api, rcv, s) do { const char *_s = (s); size_t _l = _s ? strlen(_s) : 0; \
+      fprintf(o, "{\"op\":\"long\",\"kind\":\"%s\",\"len\":%zu,\"api\":\"%s\",\"rc\":\"%s\",\"out_len\":%zu,\"head_ok\":%s,\"tail_ok\":%s}\n", kind, len, api, ename(rcv), _l, \
+              (_s && _l && (len < 1 || _s[0] == 'H')) ? "true" : "false", (_s && _l && (len < 2 || _s[_l - 1] == 'T')) ? "true" : "false"); } while (0)
+    FILE *f = fopen(path, "w");
+    const char *g = NULL, *k = "k";
+    if (!strcmp(kind, "value")) fprintf(f, "k=%s\n", field);
+    else if (!strcmp(kind, "key")) { fprintf(f, "%s=v\n", field); k = field; }
+    else if (!strcmp(kind, "section")) { fprintf(f, "[%s]\nk=v\n", field); g = field; }
+    else if (!strcmp(kind, "contline")) fprintf(f, "k=v\n %s\n", field);
+    else if (!strcmp(kind, "cbefore")) fprintf(f, "#%s\nk=v\n", field);
+    else if (!strcmp(kind, "cafter")) fprintf(f, "k=v #%s\n", field);
+    else if (!strcmp(kind, "quoted")) fprintf(f, "k=\"%s\"\n", field);
+    else fprintf(f, "k=v\n");
+    fclose(f);
+    econf_file *kf = NULL, *kf2 = NULL, *m = NULL, *other = NULL; char *str = NULL; econf_ext_value *x = NULL;
+    e = econf_readFile(&kf, path, "=", "#");
+    LEV("readFile", e, e ? NULL : "HT");
+    if (!e) {
+      for (int round = 0; round < 3; round++) {
+        econf_file *q = kf; const char *tag = round == 0 ? "" : round == 1 ? "merge+" : "write+read+";
+        char api[64];
+        if (round == 1) { econf_newKeyFile(&other, '=', '#'); econf_setStringValue(other, "zz", "o", "1"); econf_err me = econf_mergeFiles(&m, kf, other); if (me) { LEV("merge", me, NULL); break; } q = m; }
+        if (round == 2) { econf_err we = econf_writeFile(kf, dir, "long.out"); if (we) { LEV("writeFile", we, NULL); break; }
+          char *p2; if (asprintf(&p2, "%s/long.out", dir) < 0) p2 = NULL; econf_err re = econf_readFile(&kf2, p2, "=", "#"); free(p2); if (re) { LEV("write+readFile", re, NULL); break; } q = kf2; }
+        if (!strcmp(kind, "value") || !strcmp(kind, "quoted")) {
+          snprintf(api, sizeof api, "%sgetStringValue", tag); e = econf_getStringValue(q, g, k, &str); LEV(api, e, e ? NULL : str); if (!e) free(str);
+          snprintf(api, sizeof api, "%sgetExtValue.values", tag); e = econf_getExtValue(q, g, k, &x); LEV(api, e, (e || !x->values[0]) ? NULL : x->values[0]); if (!e) econf_freeExtValue(x);
+        } else if (!strcmp(kind, "contline")) {
+          snprintf(api, sizeof api, "%sgetStringValue", tag); e = econf_getStringValue(q, g, k, &str); LEV(api, e, e ? NULL : (strchr(str, '\n') ? strchr(str, '\n') + 2 : NULL)); if (!e) free(str);
+          snprintf(api, sizeof api, "%sgetExtValue.values", tag); e = econf_getExtValue(q, g, k, &x); LEV(api, e, (e || !x->values[0] || !x->values[1]) ? NULL : x->values[1]); if (!e) econf_freeExtValue(x);
+        } else if (!strcmp(kind, "key")) {
+          size_t n = 0; char **keys = NULL; snprintf(api, sizeof api, "%sgetKeys", tag); e = econf_getKeys(q, NULL, &n, &keys); LEV(api, e, (e || !n) ? NULL : keys[0]); if (!e) econf_freeArray(keys);
+          snprintf(api, sizeof api, "%sgetStringValue(by key)", tag); e = econf_getStringValue(q, NULL, k, &str); LEV(api, e, e ? NULL : "HT"); if (!e) free(str);
+        } else if (!strcmp(kind, "section")) {
+          size_t n = 0; char **gs = NULL; snprintf(api, sizeof api, "%sgetGroups", tag); e = econf_getGroups(q, &n, &gs); LEV(api, e, (e || !n) ? NULL : gs[0]); if (!e) econf_freeArray(gs);
+          snprintf(api, sizeof api, "%sgetStringValue(by section)", tag); e = econf_getStringValue(q, g, "k", &str); LEV(api, e, e ? NULL : "HT"); if (!e) free(str);
+        } else if (!strcmp(kind, "cbefore") || !strcmp(kind, "cafter")) {
+          snprintf(api, sizeof api, "%sgetExtValue.comment", tag); e = econf_getExtValue(q, g, k, &x);
+          const char *c = e ? NULL : (!strcmp(kind, "cbefore") ? x->comment_before_key : x->comment_after_value);
+          LEV(api, e, c); if (!e) econf_freeExtValue(x);
+        }
+      }
+      /* setter path */
+      if (!strcmp(kind, "value")) { econf_file *s2 = NULL; econf_newKeyFile(&s2, '=', '#'); e = econf_setStringValue(s2, "g", "k", field); if (!e) e = econf_getStringValue(s2, "g", "k", &str); LEV("setStringValue+getStringValue", e, e ? NULL : str); if (!e) free(str); econf_freeFile(s2); }
+      if (!strcmp(kind, "key")) { econf_file *s2 = NULL; econf_newKeyFile(&s2, '=', '#'); e = econf_setStringValue(s2, NULL, field, "v"); size_t n = 0; char **keys = NULL; if (!e) e = econf_getKeys(s2, NULL, &n, &keys); LEV("setStringValue+getKeys", e, (e || !n) ? NULL : keys[0]); if (!e) econf_freeArray(keys); econf_freeFile(s2); }
+      if (!strcmp(kind, "section")) { econf_file *s2 = NULL; econf_newKeyFile(&s2, '=', '#'); e = econf_setStringValue(s2, field, "k", "v"); size_t n = 0; char **gs = NULL; if (!e) e = econf_getGroups(s2, &n, &gs); LEV("setStringValue+getGroups", e, (e || !n) ? NULL : gs[0]); if (!e) econf_freeArray(gs); econf_freeFile(s2); }
+    }
+    econf_freeFile(kf); econf_freeFile(kf2); econf_freeFile(m); econf_freeFile(other);
+    free(field); free(path); free(dir); return 0; }
+
+  /* ----- longname <what> <len> <dir> : C14 — file / directory names up to the OS limits ----- */
+  if (!strcmp(op, "longname")) {
+    const char *what = ARG(1); size_t len = (size_t)strtoull(ARG(2), NULL, 10); char *dir = tokstr(ARG(3), NULL);
+    mkdirs(dir);
+    const char *kind = what;
+    if (!strcmp(what, "filename")) {            /* a file name of exactly len bytes ending in .conf, read directly and as a drop-in */
+      char *name = malloc(len + 1); memset(name, 'n', len); name[len] = 0; if (len > 5) memcpy(name + len - 5, ".conf", 5);
+      char *pth; if (asprintf(&pth, "%s/p.conf.d/%s", dir, name) < 0) pth = NULL; mkparent(pth);
+      int w = wfile(pth, "k=1\n", 4);
+      econf_file *kf = NULL; e = econf_readFile(&kf, pth, "=", "#"); char *gp = e ? NULL : econf_getPath(kf);
+      fprintf(o, "{\"op\":\"long\",\"kind\":\"%s\",\"len\":%zu,\"api\":\"readFile+getPath\",\"rc\":\"%s\",\"out_len\":%zu,\"head_ok\":%s,\"tail_ok\":%s,\"os_ok\":%s}\n", kind, len, ename(e),
+              gp ? strlen(gp) - strlen(dir) - strlen("/p.conf.d/") : 0, (gp && !strcmp(gp, pth)) ? "true" : "false", (gp && !strcmp(gp, pth)) ? "true" : "false", w == 0 ? "true" : "false");
+      free(gp); econf_freeFile(kf); kf = NULL;
+      char *etc; if (asprintf(&etc, "%s", dir) < 0) etc = NULL;
+      e = econf_readDirs(&kf, "/nonexistent-verif", etc, "p", "conf", "=", "#"); char *v = NULL; econf_err ge = e ? e : econf_getStringValue(kf, NULL, "k", &v);
+      fprintf(o, "{\"op\":\"long\",\"kind\":\"%s\",\"len\":%zu,\"api\":\"readDirs(drop-in)\",\"rc\":\"%s\",\"out_len\":%zu,\"head_ok\":%s,\"tail_ok\":%s,\"os_ok\":%s}\n", kind, len, ename(ge),
+              len, (v && !strcmp(v, "1")) ? "true" : "false", (v && !strcmp(v, "1")) ? "true" : "false", w == 0 ? "true" : "false");
+      free(v); econf_freeFile(kf); free(etc); free(pth); free(name);
+    } else {                                      /* a path of exactly len bytes built from nested directories */
+      size_t base = strlen(dir); char *pth = malloc(len + 16); strcpy(pth, dir); size_t cur = base; int w = 0;
+      while (cur + 2 + 6 < len) { size_t seg = len - cur - 1 - 7; if (seg > 200) seg = 200; if (seg < 1) break; pth[cur++] = '/'; memset(pth + cur, 'd', seg); cur += seg; pth[cur] = 0; }
+      w = 0; { char *q = strdup(pth); mkdirs(q); free(q); }
+      /* final component pads to the exact length */
+      size_t rest = len - cur - 1; pth[cur++] = '/'; memset(pth + cur, 'f', rest); cur += rest; pth[cur] = 0; if (rest > 5) memcpy(pth + cur - 5, ".conf", 5);
+      /* the kernel refuses paths of PATH_MAX bytes and more in one call: create the file relative to its directory */
+      char *slash = strrchr(pth, '/'); *slash = 0; int dfd = open(dir, O_RDONLY); (void)dfd;
+      { char cwd[8192]; if (!getcwd(cwd, sizeof cwd)) cwd[0] = 0; char *walk = strdup(pth); 
+        if (chdir(dir) == 0) { char *rel = walk + base; int okc = 1; char *sv = NULL; for (char *c2 = strtok_r(rel, "/", &sv); c2; c2 = strtok_r(NULL, "/", &sv)) if (chdir(c2)) { okc = 0; break; }
+          if (okc) { int fd = open(slash + 1, O_WRONLY | O_CREAT | O_TRUNC, 0644); if (fd >= 0) { if (write(fd, "k=1\n", 4) != 4) w = -1; close(fd); } else w = -1; } else w = -1; }
+        else w = -1;
+        if (chdir(cwd[0] ? cwd : "/")) w = w; free(walk); }
+      if (dfd >= 0) close(dfd);
+      *slash = '/';
+      econf_file *kf = NULL; e = econf_readFile(&kf, pth, "=", "#"); char *gp = e ? NULL : econf_getPath(kf);
+      fprintf(o, "{\"op\":\"long\",\"kind\":\"%s\",\"len\":%zu,\"api\":\"readFile+getPath\",\"rc\":\"%s\",\"out_len\":%zu,\"head_ok\":%s,\"tail_ok\":%s,\"os_ok\":%s}\n", kind, len, ename(e),
+              gp ? strlen(gp) : 0, (gp && !strcmp(gp, pth)) ? "true" : "false", (gp && !strcmp(gp, pth)) ? "true" : "false", w == 0 ? "true" : "false");
+      char *fn = NULL; uint64_t ln = 0; econf_errLocation(&fn, &ln); free(fn);
+      free(gp); econf_freeFile(kf); free(pth);
+    }
+    free(dir); return 0; }
+
   /* ----- boolsweep <alphabet> <maxlen> : every string over the alphabet up to maxlen through setString + getBool ----- */
   if (!strcmp(op, "boolsweep")) {
     size_t na; char *alpha = tokstr(ARG(1), &na); int maxlen = atoi(ARG(2));
